@@ -44,7 +44,7 @@ def handle (op : String) (fs : List (String × String)) : String :=
     | _, _ => "bad-case"
   else if op == "header.ximage" then (getField fs "want").getD "bad-case"
   else if op == "header.fontbytes" then "never"
-  else if op == "header.xoutline" || op == "header.xnames" then "ok"
+  else if op == "header.xoutline" || op == "header.xnames" || op == "header.bigreadback" then "ok"
   else
     match (getField fs "file").bind fromHex with
     | none => "bad-case"
